@@ -320,6 +320,8 @@ def is_same(a, b):
 
 
 def contains(ctx, container, item):
+    if isinstance(container, Choice) and not all(isinstance(v, str) for _, v in container.alts):
+        container = resolve_choice(ctx, container)
     if is_concrete(container) and is_concrete(item):
         try:
             return item in container
@@ -401,7 +403,36 @@ def fmt_int(ctx, v, conv, width=0, fill=' ', prefix=''):
         v = zint(v)
     if not is_symint(v):
         raise Unsupported("fmt_int of %r" % (v,))
+    if ctx is not None and width > 0 and width <= 16:
+        base = 10 if conv == 'd' else 16
+        if ctx.is_true(z3.And(v >= 0, v < base ** width)):
+            # value provably fits the field: exactly `width` characters
+            chars = []
+            for i in range(width):
+                p = base ** (width - 1 - i)
+                d = (v / I(p)) % I(base)
+                dig = (d + 48) if base == 10 else hexdigit(d, conv == 'X')
+                if fill != '0' and i < width - 1:
+                    dig = z3.If(v < p, I(ord(fill)), dig)
+                chars.append(simp(dig))
+            EXPANSIONS[_exp_key(chars)] = (v, conv)
+            return mkstr([prefix] + chars)
     return mkstr([prefix, Fmt(v, conv, width, fill if width else '0')])
+
+
+EXPANSIONS = {}
+
+
+def _exp_key(chars):
+    return tuple(c.get_id() if is_z3(c) else ('c', c) for c in chars)
+
+
+def expansion_value(chars, base):
+    """if these characters are the eager expansion of a formatted int, that int"""
+    r = EXPANSIONS.get(_exp_key(chars))
+    if r is not None and ((base == 16 and r[1] in 'xX') or (base == 10 and r[1] == 'd')):
+        return r[0]
+    return None
 
 
 def to_str(ctx, v):
